@@ -113,6 +113,12 @@ func (g *Gen) patternOf(d map[string]interface{}, vars []string) map[string]inte
 		switch g.R.Intn(4) {
 		case 0: // drop
 		case 1:
+			if _, container := v.(map[string]interface{}); container && len(vars) == 1 {
+				continue // a repeated variable over containers: sheens' partial re-match (known finding C05)
+			}
+			if _, container := v.([]interface{}); container && len(vars) == 1 {
+				continue
+			}
 			p[k] = g.pick(vars)
 		default:
 			switch vv := v.(type) {
@@ -266,3 +272,15 @@ func (g *Gen) Next() Op {
 	}
 	return op
 }
+
+// PatternOfData derives a pattern from the given data (exported for other drivers).
+func (g *Gen) PatternOfData(d map[string]interface{}) map[string]interface{} {
+	vars := []string{"?x", "?y"}
+	if g.R.Intn(4) == 0 {
+		vars = []string{"?x"}
+	}
+	return g.patternOf(d, vars)
+}
+
+// Scalar draws a scalar value.
+func (g *Gen) Scalar() interface{} { return g.scalar() }
